@@ -20,7 +20,9 @@ def isFor : Option Node → Bool
 
 mutual
 def spacedNode : Node → Bool
-  | .element _ _ cs _ _ ic => spacedNodes true (!cs.allWs && (ic || requireOwnLine cs)) cs
+  | .element n _ cs _ _ ic =>
+    -- the parser gives a void element no children
+    (!Sem.isVoid n || cs.isNil) && spacedNodes true (!cs.allWs && (ic || requireOwnLine cs)) cs
   | .forE _ b => spacedNodes false true b
   | .templEl _ b => spacedNodes false true b
   | .ifE _ thn elifs els => spacedNodes false true thn && spacedElifs elifs && spacedNodes false true els
@@ -48,6 +50,46 @@ def spacedCases : Cases → Bool
   | .cons _ b rest => spacedNodes false true b && spacedCases rest
 end
 
-def body (b : Nodes) : Bool := spacedNodes true true b
+def spacedBody (b : Nodes) : Bool := spacedNodes true true b
+
+/-! ### whitespace nodes that `Norm` keeps are as the parser makes them (non-empty, maximal, none in front of a `for`) -/
+
+def wsNonEmpty : Node → Bool
+  | .ws v => !v.isEmpty
+  | _ => true
+
+/-- the list starts with a node that is neither a whitespace node nor a `for` -/
+def realNonFor : Nodes → Bool
+  | .cons m _ => !m.isWs && !Reparse.eatsLeadingWs m
+  | .nil => false
+
+mutual
+def parsedWsNode : Node → Bool
+  | .element _ _ cs _ _ _ => parsedWs true true cs
+  | .forE _ b => parsedWs false true b
+  | .templEl _ b => parsedWs false true b
+  | .ifE _ thn elifs els => parsedWs false true thn && parsedWsElifs elifs && parsedWs false true els
+  | .switchE _ cs => parsedWsCases cs
+  | _ => true
+/-- `all`, `atStart` as in `Norm.nodes`: a whitespace node that `Norm.nodes all atStart` KEEPS (control-flow / block body,
+    neither leading nor trailing) is not empty and is directly followed by a node that is neither a whitespace node nor a
+    `for` (the parser's whitespace nodes are maximal and non-empty; `for` eats the white space in front of it). -/
+def parsedWs (all atStart : Bool) : Nodes → Bool
+  | .nil => true
+  | .cons n rest =>
+    if n.isWs then (all || atStart || rest.allWs || (wsNonEmpty n && realNonFor rest)) && parsedWs all atStart rest
+    else parsedWsNode n && parsedWs all false rest
+def parsedWsElifs : ElseIfs → Bool
+  | .nil => true
+  | .cons _ thn rest => parsedWs false true thn && parsedWsElifs rest
+def parsedWsCases : Cases → Bool
+  | .nil => true
+  | .cons _ b rest => parsedWs false true b && parsedWsCases rest
+end
+
+
+/-- The source already has white space wherever the printer breaks a line next to inline content, and its whitespace nodes
+    are as the parser makes them. -/
+def body (b : Nodes) : Bool := spacedNodes true true b && parsedWs true true b
 
 end TemplVerif.Spaced
